@@ -1078,6 +1078,67 @@ fn probe_port(model: &mut Model, m128: bool, alias: bool, ops: &[(char, u8)], mu
             Ok(None) => {}
         }
     }
+    // the generator behind the ports (hook H5): what the port history programmed must be what the chip
+    // definition says for the registers as written — noise clock and tone toggles, measured on raw ticks
+    {
+        let mut sel = 0usize;
+        let mut written: [Option<u8>; 16] = [None; 16];
+        for (op, v) in ops.iter() {
+            match op {
+                's' => sel = (*v & 0x0F) as usize,
+                'w' => written[sel] = Some(*v),
+                _ => {}
+            }
+        }
+        let np_ticks = written[6].map(|r6| usize::from_str_radix(&model.ask(&format!("spec noise {:x}", r6)), 16).unwrap());
+        let tps: Vec<Option<usize>> = (0..3)
+            .map(|ch| match (written[2 * ch], written[2 * ch + 1]) {
+                (Some(f), Some(c)) => Some(usize::from_str_radix(&model.ask(&format!("spec tone {:x}", f as usize + 256 * (c as usize & 0x0F))), 16).unwrap()),
+                _ => None,
+            })
+            .collect();
+        let need = np_ticks.map(|n| n * 6 + 4).unwrap_or(0).max(tps.iter().flatten().filter(|t| **t <= 64).map(|t| t * 6 + 4).max().unwrap_or(0));
+        if need > 0 {
+            let vs = match catch_unwind(AssertUnwindSafe(|| (0..need).map(|_| e.verif_ay_raw_tick()).collect::<Vec<_>>())) {
+                Ok(v) => v,
+                Err(_) => return Some(dis(Kind::SpecViolated, "C18/panic", "update_mixer behind the ports panicked", "panic", "no panic")),
+            };
+            if let Some(rp) = rep.as_deref_mut() {
+                rp.eval();
+            }
+            if let Some(want) = np_ticks {
+                let changes: Vec<usize> = (1..vs.len()).filter(|t| vs[*t].noise != vs[*t - 1].noise).collect();
+                let intervals: Vec<usize> = changes.windows(2).map(|w| w[1] - w[0]).collect();
+                if intervals.len() < 3 || intervals.iter().any(|d| *d != want) {
+                    return Some(dis(
+                        Kind::SpecViolated,
+                        "C18/port.noise-clock",
+                        format!("{}K: after the port history R6 holds {:#04x} (NP={}) but the generator behind the ports steps its LFSR at another rate", if m128 { 128 } else { 48 }, written[6].unwrap(), written[6].unwrap() & 0x1F),
+                        format!("{:?}", &intervals[..intervals.len().min(6)]),
+                        format!("every {} ticks", want),
+                    ));
+                }
+            }
+            for ch in 0..3 {
+                if let Some(want) = tps[ch] {
+                    if want > 64 {
+                        continue;
+                    }
+                    let changes: Vec<usize> = (1..vs.len()).filter(|t| vs[*t].tone[ch] != vs[*t - 1].tone[ch]).collect();
+                    let intervals: Vec<usize> = changes.windows(2).map(|w| w[1] - w[0]).collect();
+                    if intervals.len() < 3 || intervals.iter().any(|d| *d != want) {
+                        return Some(dis(
+                            Kind::SpecViolated,
+                            "C18/port.tone-clock",
+                            format!("{}K: after the port history channel {} has TP registers {:#04x}/{:#04x} but the generator behind the ports toggles at another rate", if m128 { 128 } else { 48 }, ch, written[2 * ch].unwrap(), written[2 * ch + 1].unwrap()),
+                            format!("{:?}", &intervals[..intervals.len().min(6)]),
+                            format!("every {} ticks", want),
+                        ));
+                    }
+                }
+            }
+        }
+    }
     let ans = model.ask_many(&lines);
     for (k, got, li) in reads {
         let t: Vec<&str> = ans[li].split(' ').collect();
@@ -1478,6 +1539,36 @@ addresses. distinct = generator/mode/shape/segment/gate classes seen by (1), par
                 ops.push(('r', 0));
             }
             run.go(&Probe::Port { m128, alias, ops });
+            // the generator behind the ports: noise and tone periods programmed through the ports, as the first
+            // write after reset and after other values, with plain and aliased register numbers
+            for r6 in [0u8, 1, 2, 5, 31, 0x20, 0xE3, 0xFF] {
+                for pre in [None, Some(5u8), Some(0u8)] {
+                    for hi in [0u8, 0x10, 0xF0] {
+                        let mut ops = vec![];
+                        if let Some(p) = pre {
+                            ops.push(('s', 6));
+                            ops.push(('w', p));
+                        }
+                        ops.push(('s', 6 | hi));
+                        ops.push(('w', r6));
+                        ops.push(('r', 0));
+                        run.go(&Probe::Port { m128, alias, ops });
+                    }
+                }
+            }
+            for (ch, tp) in [(0u8, 0u16), (0, 1), (1, 2), (2, 7), (1, 60), (2, 0x1003), (0, 0xF005)] {
+                for hi in [0u8, 0x30] {
+                    let ops = vec![
+                        ('s', (2 * ch) | hi),
+                        ('w', tp as u8),
+                        ('s', (2 * ch + 1) | hi),
+                        ('w', (tp >> 8) as u8),
+                        ('s', 2 * ch),
+                        ('w', tp as u8),
+                    ];
+                    run.go(&Probe::Port { m128, alias, ops });
+                }
+            }
             for _ in 0..o.n(6, 300) {
                 let n = rng.range(5, 120);
                 let ops: Vec<(char, u8)> = (0..n)
